@@ -26,6 +26,16 @@ model deliberately gives a default (a read of such a variable while unbound woul
 Python; the linking theorem's hand model must guard it).
 A read of an `option` variable where its content is needed is a checked unwrap (Err 99 = TypeError on None).
 Every variable's type is declared in cfg["vars"]; an undeclared variable is refused.
+
+Object attributes (cfg["fields"] = {attr: (owner type, field type, getter template over {obj}, setter template over
+{obj} {val})}): an object held in a variable is a VALUE of its declared owner type;
+  e.attr            (e of the owner type)          the getter applied to e
+  x.attr = e        (x a bound variable)           let x := setter x e          (the object is rebound, as for x = ...)
+  x.attr.append(e)  (the field a list)             let x := setter x (getter x ++ [e])
+so a method that mutates `self` denotes the new value of self (cfg["implicit_return"] = "{self}").  Aliasing is NOT
+modelled: the configuration's author must check that no second reference to a mutated object is read afterwards.
+An attribute that is not declared, or an owner of another type, is refused.
+`x: T = e` inside a function body is `x = e` (annotations of local / attribute targets are not evaluated there).
 """
 import ast
 
@@ -112,6 +122,8 @@ class Tr:
         self.effects = [(pat(p), var, tmpl) for p, var, tmpl in cfg.get("effects", [])]
         self.effect_calls = [(pat(p), var, st_t, val_t, parse_type(ty)) for p, var, st_t, val_t, ty in cfg.get("effect_calls", [])]
         self.eqb = cfg.get("eqb", {})
+        # object attributes: {attr: (owner type, field type, getter template, setter template)}
+        self.fields = {a: (parse_type(o), parse_type(t), g, st) for a, (o, t, g, st) in cfg.get("fields", {}).items()}
         self.raises = list(cfg.get("raises", []))  # [(substring of unparse(raise stmt), tag)]
         self.fresh = 0
         self.ret_type = parse_type(cfg["returns"])
@@ -168,6 +180,12 @@ class Tr:
                     hoist.append((n, tmpl[1:].format(**args)))
                     return n, ty
                 return "(" + tmpl.format(**args) + ")", ty
+        if isinstance(e, ast.Attribute) and e.attr in self.fields:
+            owner, fty, getter, _ = self.fields[e.attr]
+            o, ot = self.expr(e.value, env, hoist)
+            if ot != owner:
+                raise Unsupported("attribute %s of a %s (declared for %s)" % (e.attr, ot, owner))
+            return "(" + getter.format(obj=o) + ")", fty
         if isinstance(e, ast.Name) and e.id.startswith("MATCHCLASS:"):
             return "(" + e.id[len("MATCHCLASS:"):] + ")", ("bool",)
         if isinstance(e, ast.Name):
@@ -333,6 +351,9 @@ class Tr:
                 continue
             if isinstance(st, ast.Assign):
                 for t in st.targets:
+                    if self.field_target(t) is not None:      # x.attr = e rebinds x
+                        add(self.field_target(t))
+                        continue
                     for n in ([t] if isinstance(t, ast.Name) else t.elts if isinstance(t, ast.Tuple) else []):
                         if isinstance(n, ast.Name):
                             add(n.id)
@@ -351,6 +372,8 @@ class Tr:
                 eff = self.effect_of(st.value)
                 if eff:
                     add(eff[0])
+                elif self.field_append(st.value) is not None:     # x.attr.append(e) rebinds x
+                    add(self.field_append(st.value)[0])
                 elif isinstance(st.value, ast.Call) and isinstance(st.value.func, ast.Attribute) \
                         and st.value.func.attr in ("append", "add") and isinstance(st.value.func.value, ast.Name):
                     add(st.value.func.value.id)
@@ -455,6 +478,8 @@ class Tr:
                     txt = "%slet %s : %s := %s in\n%slet %s := %s in\n" % (
                         ind, tgt.id, coq_type(vty), val_t.format(**args), ind, var, st_t.format(**args))
                     return self.bind_hoist(hoist, txt, ind) + self.block(rest, env2, k, ind)
+            if self.field_target(tgt) is not None:
+                return self.field_store(tgt.value.id, tgt.attr, st.value, False, env, hoist, rest, k, ind)
             if isinstance(tgt, ast.Name):
                 ty = self.var_type(tgt.id)
                 v, vt = self.expr(st.value, env, hoist)
@@ -497,6 +522,9 @@ class Tr:
                     return self.bind_hoist(hoist, "%s%s %s <- %s;\n" % (ind, self.M["bind"], var, tmpl[1:].format(**args)), ind) + self.block(rest, env, k, ind)
                 return self.bind_hoist(hoist, "%slet %s := %s in\n" % (ind, var, tmpl.format(**args)), ind) + self.block(rest, env, k, ind)
             c = st.value
+            if self.field_append(c) is not None:
+                x, attr, arg = self.field_append(c)
+                return self.field_store(x, attr, arg, True, env, hoist, rest, k, ind)
             n = c.func.value.id
             if n not in env or len(c.args) != 1 or c.keywords:
                 raise Unsupported("method call: " + ast.unparse(st))
@@ -545,6 +573,35 @@ class Tr:
         if isinstance(st, ast.Match):
             return self.block([self.match_to_if(st)] + rest, env, k, ind)
         raise Unsupported("statement: " + ast.unparse(st)[:80])
+
+    # ---- object attributes (cfg["fields"])
+    def field_target(self, t):
+        """x.attr with attr declared and x a plain variable -> the variable's name, else None"""
+        if isinstance(t, ast.Attribute) and t.attr in self.fields and isinstance(t.value, ast.Name):
+            return t.value.id
+        return None
+
+    def field_append(self, call):
+        """x.attr.append(e) -> (x, attr, e), else None"""
+        if isinstance(call, ast.Call) and isinstance(call.func, ast.Attribute) and call.func.attr == "append" \
+                and len(call.args) == 1 and not call.keywords and self.field_target(call.func.value) is not None:
+            return call.func.value.value.id, call.func.value.attr, call.args[0]
+        return None
+
+    def field_store(self, x, attr, value, append, env, hoist, rest, k, ind):
+        """x.attr = value  /  x.attr.append(value): the variable x is rebound to the updated object"""
+        owner, fty, getter, setter = self.fields[attr]
+        if env.get(x) != owner:
+            raise Unsupported("store to attribute %s of %s, which is not a bound %s" % (attr, x, owner))
+        v, vt = self.expr(value, env, hoist)
+        if append:
+            if fty[0] != "list":
+                raise Unsupported("append to a field that is not a list: " + attr)
+            v = "(%s ++ [%s])" % (getter.format(obj=x), self.need(v, vt, fty[1], hoist))
+        else:
+            v = self.need(v, vt, fty, hoist)
+        txt = "%slet %s : %s := %s in\n" % (ind, x, coq_type(owner), setter.format(obj=x, val=v))
+        return self.bind_hoist(hoist, txt, ind) + self.block(rest, env, k, ind)
 
     def match_to_if(self, st):
         """match <subject>: case C1(): ... case C2(): ... case other: ...   ->   if/elif/else on the class tests
@@ -756,9 +813,20 @@ class AttrVars(ast.NodeTransformer):
         return node
 
 
+class AnnToAssign(ast.NodeTransformer):
+    """`x: T = e` in a function body is `x = e`: the annotation of a local or attribute target is not evaluated there.
+    A bare declaration `x: T` is left alone (and refused as an unsupported statement)."""
+
+    def visit_AnnAssign(self, node):
+        if node.value is None:
+            return node
+        return ast.copy_location(ast.Assign(targets=[node.target], value=node.value), node)
+
+
 def translate(source_text, cfg):
     tree = ast.parse(source_text)
     f = find_function(tree, cfg["func"], cfg.get("cls"))
+    f = AnnToAssign().visit(f)
     if cfg.get("attr_vars"):
         f = AttrVars(cfg["attr_vars"]).visit(f)
     f = Rename().visit(f)
